@@ -80,6 +80,19 @@ def pushChecked (m : MMR PT) (ids : List Nat) : Option (MMR PT × Nat) :=
       if (List.range (m'.size - m.size)).all (fun k => match m'.store (m.size + k) with | some (some _) => true | _ => false)
       then some (m', m.size) else none
 
+def verifyLine (s : St) (rslot pslot cut leaves : String) : St × String :=
+  match parseNat? rslot, parseNat? pslot, parseNat? cut, parsePairs? leaves with
+  | some rslot, some pslot, some cut, some leaves =>
+    match lookup s.roots rslot, lookup s.proofs pslot with
+    | some root, some (size, proof0) =>
+      let proof := proof0.take (proof0.length - cut)
+      let ls : List (Nat × PT) := leaves.map fun (i, id) => (leafIndexToPos i, some (Term.leaf id))
+      match calculateRoot pmerge ls size (proof.map some) with
+      | some (some r) => (s, if r = root then "true" else "false")
+      | _ => (s, "err")
+    | _, _ => (s, "bad-op")
+  | _, _, _, _ => (s, "bad-op")
+
 def stepMmr (s : St) (ts : List String) : St × String :=
   match ts with
   | ["push", id] =>
@@ -118,17 +131,8 @@ def stepMmr (s : St) (ts : List String) : St × String :=
     match parseNat? slot, parseNat? n, parseNatList? ps with
     | some slot, some n, some ps => proofLine s (recreate s.mmr n) slot ps
     | _, _, _ => (s, "bad-op")
-  | ["verify", rslot, pslot, leaves] =>
-    match parseNat? rslot, parseNat? pslot, parsePairs? leaves with
-    | some rslot, some pslot, some leaves =>
-      match lookup s.roots rslot, lookup s.proofs pslot with
-      | some root, some (size, proof) =>
-        let ls : List (Nat × PT) := leaves.map fun (i, id) => (leafIndexToPos i, some (Term.leaf id))
-        match calculateRoot pmerge ls size (proof.map some) with
-        | some (some r) => (s, if r = root then "true" else "false")
-        | _ => (s, "err")
-      | _, _ => (s, "bad-op")
-    | _, _, _ => (s, "bad-op")
+  | ["verify", rslot, pslot, leaves] => verifyLine s rslot pslot "0" leaves
+  | ["verifycut", rslot, pslot, cut, leaves] => verifyLine s rslot pslot cut leaves
   | ["posheight", p] =>
     match parseNat? p with
     | some p => (s, s!"{posHeightInTree p}")
@@ -179,9 +183,8 @@ def stepFilter (s : FSt) (ts : List String) : FSt × String :=
     match txs.mapM parseTx? with
     | none => (s, "bad-op")
     | some txs =>
-      -- the provider sees every cell created so far, including this block's own outputs that
-      -- precede… no: `get_transaction` finds any committed transaction of the store; the harness
-      -- registers this block's outputs *before* building (the block body is stored first).
+      -- the provider finds every cell created so far, including this block's own outputs
+      -- (`get_transaction` finds any stored transaction; the block body is stored before its filter is built)
       let (cells, next) := txs.foldl (fun (acc : List (Nat × Cell) × Nat) tx =>
         tx.2.2.foldl (fun (a : List (Nat × Cell) × Nat) c => ((a.2, c) :: a.1, a.2 + 1)) acc) (s.cells, s.next)
       let mtxs : List Tx := txs.map fun (cb, ins, outs) =>
@@ -238,8 +241,56 @@ def stepNode (s : NSt) (ts : List String) : NSt × String :=
     | _, _ => (s, "bad-op")
   | _ => (s, "bad-op")
 
+/-! ### node-level filter stream: the real `BlockFilter` service following a chain with forks -/
+
+structure NFSt where
+  blocks : List Blk := [⟨0, 0, 0⟩]
+  main : List Nat := [0]
+  fs : FState (List Nat) := ⟨[], none⟩
+
+/-- `c|n/lock:type,lock:type|?/lock:type,..` — inputs are given resolved (`?` = not found) -/
+def parseNTx? (t : String) : Option Tx :=
+  match t.splitOn "/" with
+  | [k, ins, outs] => do
+    let ins ← if ins = "-" then pure [] else
+      (ins.splitOn ",").mapM fun c => if c = "?" then pure none else (parseCell? c).map some
+    let outs ← if outs = "-" then pure [] else (outs.splitOn ",").mapM parseCell?
+    pure { cellbase := k = "c", inputs := ins, outputs := outs }
+  | _ => none
+
+def insertSortedNat (x : Nat) : List Nat → List Nat
+  | [] => [x]
+  | y :: ys => if x ≤ y then x :: y :: ys else y :: insertSortedNat x ys
+
+def stepNFilter (s : NFSt) (ts : List String) : NFSt × String :=
+  match ts with
+  | ["blk", id, parent] =>
+    match parseNat? id, parseNat? parent with
+    | some id, some parent => ({ s with blocks := ⟨id, parent, id % 10000⟩ :: s.blocks }, "ok")
+    | _, _ => (s, "bad-op")
+  | ["sync", ids] =>
+    match parseNatList? ids with
+    | none => (s, "bad-op")
+    | some ids =>
+      let main := 0 :: ids
+      let blkOf : Nat → Blk := fun i => (s.blocks.find? fun b => b.id = i).getD ⟨i, 0, i % 10000⟩
+      let v : View := { blk := blkOf, isMain := fun i => main.contains i, mainAt := fun n => main.getD n 0, tip := main.length - 1 }
+      match buildFilterData (fun ph d => d :: ph) [] v s.fs with
+      | none => ({ s with main := main }, "panic")
+      | some fs' =>
+        let built := (fs'.built.map (·.1)).foldr insertSortedNat []
+        ({ s with main := main, fs := fs' }, s!"built {showNatList built}")
+  | "filter" :: _ :: txs =>
+    match txs.mapM parseNTx? with
+    | none => (s, "bad-op")
+    | some mtxs =>
+      let set := elemSet (blockElems mtxs)
+      (s, s!"n={set.length} elems={showNatList set} missing={blockMissing mtxs}")
+  | _ => (s, "bad-op")
+
 def main (args : List String) : IO UInt32 :=
   match args with
+  | ["nfilter"] => runLines ({} : NFSt) stepNFilter
   | ["node"] => runLines ({} : NSt) stepNode
   | ["filter"] => runLines ({} : FSt) stepFilter
   | _ => runLines ({} : St) stepMmr
